@@ -17,7 +17,7 @@ CFG = dict(
               "call-site facts + differential run with fault injection against the Lean micro-step model + implementation-side oracle (final state after restart-and-resume = uninterrupted real run)",
     lean=["Ssv.Props.C12"],
     engines=[dict(harness="registry", driver="m_registry", args=["-mode", "c12"], case_delim="reset",
-                  n_quick=2, n_thorough=12, thorough_seeds=3, n_search=6, search_seeds=2)],
+                  n_quick=2, n_thorough=40, thorough_seeds=3, n_search=6, search_seeds=2)],
     rule="seeded generator of validator life cycles (operators incl. the own key, add own / foreign validators, decided history, metadata, liquidate, reactivate, exit, remove, re-add, "
          "fee recipients, malformed adds) cut into blocks; for every block every real database write (incl. the slashing-protection writes inside key-manager calls) is used once as a crash "
          "point and once as an error point, every key-manager call once as an error point; each fault run: blocks before, faulted block, new process on the surviving database, resume from "
